@@ -57,6 +57,7 @@ CONSTANTS N, MaxTime, MaxSkew, Budget, Variant, Faults, MaxToggle, Removal, Remo
           MaxAtt,    \* attempts of newLock per Lock() call that the model follows (>= 2)
           Crashes,   \* BOOLEAN: processes may die at any point
           StartBy,   \* processes start (in order 1, 2, ...) at times <= StartBy
+          StartFrom, \* ... and the processes 2, 3, ... not before StartFrom (newcomers)
           HealOdds,  \* schedule generation: a fault ends with probability 1/HealOdds per step
           ListLag,   \* BOOLEAN: listings show a new lock file only after time has passed (next Wait / Tick)
           FixSkew    \* BOOLEAN: the third party's clock is ahead by exactly MaxSkew (else any value in -MaxSkew..MaxSkew)
@@ -130,7 +131,7 @@ NewFile(p) == [o |-> p, t |-> pr[p].ts, x |-> pr[p].x, g |-> pr[p].gen + 1]
 
 Start(p, x) ==
   /\ pr[p].pc = "idle" /\ now <= StartBy
-  /\ p > 1 => pr[p - 1].pc # "idle"      \* symmetry breaking: processes are interchangeable
+  /\ p > 1 => (pr[p - 1].pc # "idle" /\ now >= StartFrom)     \* symmetry breaking: processes are interchangeable
   /\ Move(p, [pr[p] EXCEPT !.pc = "list", !.phase = 1, !.x = x, !.ts = Local(p), !.tries = 0, !.att = 1, !.checked = {}],
           H("start", p, x, ""))
   /\ UNCHANGED files
